@@ -205,6 +205,11 @@ func RunProperty(env *Env, p *Property, tier string) *Report {
 				}
 				rep.anchored[n] = true
 				stack = append(stack, f)
+				if o := f.Origin(); o != nil && !rep.anchored[FuncName(o)] {
+					// an instantiation of a generic function: the tables are keyed by the generic
+					rep.anchored[FuncName(o)] = true
+					stack = append(stack, o)
+				}
 			}
 			for k := range rep.funcs {
 				push(byName[k])
